@@ -20,15 +20,28 @@ RULE = ('stateless exploration of all schedules of {loop thread running the real
         'with at most k pre-emptions; scheduling points = source lines of the dispatch / idle-wait / wake-up functions plus '
         'every lock, event and select/poll/epoll operation; one evaluation = one complete schedule executed on the real code; '
         'non-trivial = schedule in which a foreign fire() executed while the loop thread was inside the generate_events '
-        'hand-shake or its idle wait; distinct = distinct schedule (choice sequence)')
+        'hand-shake or its idle wait; distinct = distinct schedule (choice sequence); "*_ctrl" configurations: three identical '
+        'firing threads, a near timer bounds every idle wait and that wait may expire (an environment choice counted like a '
+        'pre-emption), scheduling points restricted to the control-pipe protocol (resume, _read_ctrl, right after each wait '
+        'returned, every lock/select operation), up to 3 deviations, symmetry reduction over not-yet-started firing threads')
 ASSUMPTIONS = [
     'CPython 3.12: one source line of the monitored functions is an atomic step (sub-line races are not explored)',
     'lock/event/select doubles are faithful to threading.RLock, threading.Event and select.* for the operations circuits uses',
-    'a timed wait never expires (the property demands wake-up without a timeout)',
+    'a timed wait never expires (the property demands wake-up without a timeout); in the *_ctrl configurations a wait of 1/8 s may '
+    'expire as an environment choice, but a loop left blocked in it with an undispatched event is still a lost wake-up',
     'no randomised tail: only the bounded exhaustive part of the quantifier is decided',
 ]
 
-MECHS = {'fallback': None, 'fallback_timed': None, 'select': 'Select', 'poll': 'Poll', 'epoll': 'EPoll'}
+MECHS = {'fallback': None, 'fallback_timed': None, 'select': 'Select', 'poll': 'Poll', 'epoll': 'EPoll',
+         # "ctrl" variants: a near timer bounds every idle wait (1/8 s) and that wait may expire (environment choice); scheduling
+         # points are restricted to the wake-up protocol itself (control pipe, resume, time-left budget), which makes three
+         # deviations affordable
+         'select_ctrl': 'Select', 'poll_ctrl': 'Poll', 'epoll_ctrl': 'EPoll'}
+
+
+def focus_functions():
+    # (the lines of the wake-up protocol itself; a further point sits right after every blocking wait has returned)
+    return [pollers_mod.BasePoller.__dict__[n] for n in ('resume', '_read_ctrl') if n in pollers_mod.BasePoller.__dict__]
 
 
 def monitored():
@@ -90,6 +103,10 @@ def execute(case, prefix):
         log.append(('disp', event.tid, event.seq))
 
     root.addHandler(handler('probe')(on_ev))
+    if case.mech.endswith('_ctrl'):
+        def near_timer(self, event):
+            event.reduce_time_left(0.125)
+        root.addHandler(handler('generate_events')(near_timer))
     if case.mech == 'fallback_timed':
         # somebody (a Timer far in the future) bounds the idle wait: the fallback then takes its TIMED wait path
         def far_timer(self, event):
@@ -98,6 +115,12 @@ def execute(case, prefix):
     while len(root):
         root.flush()
     ex = e2.Execution(prefix)
+    if case.mech.endswith('_ctrl'):
+        ex.expirable = 0.125
+        ex.post_wait_point = True
+        e2.set_focus(focus_functions())
+    else:
+        e2.set_focus(None)
     state = {'collision': False, 'in_handshake': False}
 
     def observer(ex_, me, where, lineno):
@@ -113,18 +136,20 @@ def execute(case, prefix):
     def loop():
         root.run()
 
+    sym = case.mech.endswith('_ctrl')     # there the firing threads run identical code: symmetry reduction (see e2)
+
     def firer(tid):
         def body():
             for i in range(case.n):
                 e = Event.create('probe')
                 e.tid, e.seq = tid, i
-                target = root if (i + tid) % 2 == 0 else child
+                target = root if (i + (0 if sym else tid)) % 2 == 0 else child
                 target.fire(e)
                 log.append(('ret', tid, i))
         return body
     ex.add_thread('loop', loop)
     for t in range(case.F):
-        ex.add_thread('f%d' % t, firer(t))
+        ex.add_thread('f%d' % t, firer(t), sym='firer' if sym else None)
 
     snap = {}
 
@@ -186,8 +211,12 @@ def judge(case, ex, log_at_terminal, final_log):
 
 
 def _pin():
-    """baton hand-offs between the threads of one execution are much cheaper on one core"""
+    """baton hand-offs between the threads of one execution are much cheaper on one core (worker processes only: the main
+    process must keep its full affinity mask, its children inherit it)"""
+    import multiprocessing
     import os
+    if multiprocessing.current_process().name == 'MainProcess':
+        return
     try:
         cpus = sorted(os.sched_getaffinity(0))
         if len(cpus) > 1:
@@ -199,7 +228,9 @@ def _pin():
 def _explore(items):
     st = core.Stats()
     _pin()
-    for mech, F, n, bound, prefix in items:
+    for item in items:
+        mech, F, n, bound, prefix = item[:5]
+        expand_only = len(item) > 5 and item[5]      # execute this prefix only and hand its children back (load balancing)
         case = Case(mech, F, n)
         stack = [list(prefix)]
         while stack:
@@ -223,7 +254,11 @@ def _explore(items):
             if len(st.samples) < 2 and len(p) > 0:
                 st.sample({'mech': mech, 'F': F, 'n': n, 'schedule_deviations': compress(ex.choices),
                            'points': len(ex.points), 'terminal': ex.terminal, 'log': [list(x) for x in fl]})
-            stack.extend(e2.children(ex, bound))
+            if expand_only:
+                for k in e2.children(ex, bound):
+                    st.next[(mech, F, n, bound, tuple(k))] = (mech, F, n, bound, k)
+            else:
+                stack.extend(e2.children(ex, bound))
     return st
 
 
@@ -233,9 +268,10 @@ def compress(choices):
 
 def plan(tier):
     if tier == 'quick':
-        return [('fallback', 1, 2, 2), ('fallback_timed', 1, 2, 1), ('select', 1, 2, 1), ('poll', 1, 2, 1), ('epoll', 1, 2, 1), ('fallback', 2, 1, 1)]
+        return [('fallback', 1, 2, 2), ('fallback_timed', 1, 2, 1), ('select', 1, 2, 1), ('poll', 1, 2, 1), ('epoll', 1, 2, 1), ('fallback', 2, 1, 1),
+                ('epoll_ctrl', 3, 1, 3)]
     return [('fallback', 1, 2, 3), ('fallback_timed', 1, 2, 2), ('select', 1, 2, 2), ('poll', 1, 2, 2), ('epoll', 1, 2, 2), ('fallback', 2, 2, 2),
-            ('epoll', 2, 1, 2)]
+            ('epoll', 2, 1, 2), ('select_ctrl', 3, 1, 3), ('poll_ctrl', 3, 1, 3), ('epoll_ctrl', 3, 1, 3), ('epoll_ctrl', 1, 3, 3)]
 
 
 def run(tier, seed, workers):
@@ -261,9 +297,17 @@ def run(tier, seed, workers):
         total.sample({'mech': mech, 'F': F, 'n': n, 'schedule_deviations': [], 'points': len(ex.points),
                       'terminal': ex.terminal, 'log': [list(x) for x in fl]})
         kids = e2.children(ex, bound)
-        items += [(mech, F, n, bound, k) for k in kids]
+        if bound >= 3:
+            # deep configurations: sub-trees differ wildly in size - distribute them one level further down
+            st1 = core.parallel_items(_explore, [(mech, F, n, bound, k, True) for k in kids], workers, chunk=max(1, len(kids) // workers))
+            items += list(st1.next.values())
+            st1.next = {}
+            total.merge(st1)
+        else:
+            items += [(mech, F, n, bound, k) for k in kids]
     import random
     random.Random(seed + 1).shuffle(items)   # order only (load balance); every item is explored
+    items.sort(key=lambda it: it[0].endswith('_ctrl'))     # (switching the set of monitored functions is costly: group by focus)
     st = core.parallel_items(_explore, items, workers, chunk=max(1, len(items) // (workers * 6)))
     total.merge(st)
     total.states = total.counters['scheduling_points_total'] or total.transitions
